@@ -244,6 +244,18 @@ func genRender(t *Tracer, m *Meta, tier string, seed int64) {
 		runRenderCase(t, m, &TrieCase{Keys: keys, Enc: enc, Vals: mkVals(r, "C19", enc, len(keys)), Opt4: o4})
 		m.class("family:" + fam)
 	}
+	for i := 0; i < 6; i++ {
+		c := bigMimicCase(r, "i32")
+		if i%2 == 1 {
+			c = dedupBigCase(r, "i32")
+		}
+		c.Opt4 = all16[r.Intn(16)]
+		if i%2 == 1 {
+			c.Opt4[0] = 1
+		}
+		runRenderCase(t, m, c)
+		m.class([]string{"special:bigmimic", "special:dedupbig"}[i%2])
+	}
 	for _, keys := range [][]string{{}, {""}, {"a"}, {"", "a"}} {
 		for _, enc := range []string{"i32", "none"} {
 			runRenderCase(t, m, &TrieCase{Keys: keys, Enc: enc, Vals: mkVals(r, "C19", enc, len(keys)), Opt4: all16[r.Intn(16)]})
